@@ -1,5 +1,5 @@
 _RULE = ("E1 deviation-bounded exploration of one event: configuration lattice {along-step: linear, "
-         "linear+fluctuation, uniform field, field+fluctuation, neutral} x slots {1,2,8 | quick 1,3} x "
+         "linear+fluctuation, uniform field, field+fluctuation, neutral, and the four with Urban MSC} x slots {1,2,8 | quick 1,3} x "
          "track order {none, init_charge, reindex_status} x cross-section level {moderate, high} x "
          "geometry {box-in-box, rotated daughter} ; primary lattice {gamma,e-,e+} x {0.03,1,100,9000 MeV} "
          "x {centre, near wall} x {6 axes + 2 oblique | quick 3} ; ALL interaction-outcome sequences with "
@@ -16,7 +16,7 @@ CHECK = {
         "RNG is the real XORWOW reseeded per execution: MFP sampling and loss fluctuations follow one "
         "fixed stream; the explored nondeterminism is the interaction outcome",
         "tolerance 64 ulp x (8 + 4 x steps) x (E_primary + 2mc^2)",
-        "MSC variants are not part of the lattice (no synthetic Urban MSC data yet)",
+        "Urban MSC variants use a synthetic transport cross section (lambda_tr = E^2 / 20 MeV^2/cm)",
     ],
     "bounds": {"quick": {"deviations": 2}, "thorough": {"deviations": 3}},
     "parts": [
